@@ -330,32 +330,44 @@ def _solve_z3_one(facts, goal, timeout_ms):
     return s, str(r), dt
 
 
+def _solve_portfolio(facts, g, timeout_ms):
+    """one goal: z3 (short) -> cvc5 -> z3 (full) -> z3 nlsat pipeline.
+    returns (solver_with_query, result, seconds, backend)"""
+    tot = 0.0
+    s, r, dt = _solve_z3_one(facts, g, max(1000, timeout_ms // 4))
+    tot += dt
+    if r in ("sat", "unsat"):
+        return s, r, tot, "z3"
+    r3, dt3 = _solve_cvc5(s.to_smt2(), timeout_ms)
+    tot += dt3
+    if r3 == "unsat":
+        return s, "unsat", tot, "cvc5"
+    s1, r1, dt1 = _solve_z3_one(facts, g, timeout_ms)
+    tot += dt1
+    if r1 in ("sat", "unsat"):
+        return s1, r1, tot, "z3"
+    s2, r2, dt2 = _solve_z3_alt(facts, g, timeout_ms)
+    tot += dt2
+    if r2 in ("sat", "unsat"):
+        return s2, r2, tot, "z3-nlsat"
+    return s, "unknown", tot, "none"
+
+
 def _solve_z3(facts, goal, timeout_ms):
     """a conjunction is discharged conjunct by conjunct (each query stays small); the
     first conjunct that is not unsat decides the result"""
     parts = _conjuncts(z3.simplify(goal)) if not z3.is_false(goal) else [goal]
-    if len(parts) <= 1:
-        return _solve_z3_one(facts, goal, timeout_ms)
     tot = 0.0
     last = None
+    backends = set()
     for g in parts:
-        s, r, dt = _solve_z3_one(facts, g, timeout_ms)
+        s, r, dt, be = _solve_portfolio(facts, g, timeout_ms)
         tot += dt
         last = s
+        backends.add(be)
         if r != "unsat":
-            if r == "unknown":
-                s2, r2, dt2 = _solve_z3_alt(facts, g, timeout_ms)
-                tot += dt2
-                if r2 == "unsat":
-                    continue
-                if r2 == "sat":
-                    return s2, r2, tot
-                r3, dt3 = _solve_cvc5(s.to_smt2(), timeout_ms)
-                tot += dt3
-                if r3 == "unsat":
-                    continue
-            return s, r, tot
-    return last, "unsat", tot
+            return s, r, tot, backends
+    return last, "unsat", tot, backends
 
 
 def _solve_z3_alt(facts, goal, timeout_ms):
@@ -397,6 +409,36 @@ def _solve_cvc5(smt2, timeout_ms):
         except OSError:
             pass
     return (res if res in ("sat", "unsat") else "unknown"), time.time() - t0
+
+
+def _mv_float(model, t):
+    mv = model.eval(t, model_completion=True)
+    if z3.is_rational_value(mv):
+        return float(mv.as_fraction())
+    if z3.is_algebraic_value(mv):
+        return float(mv.approx(30).as_fraction())
+    if z3.is_int_value(mv):
+        return float(mv.as_long())
+    return None
+
+
+def _angles_from_trig(model, ctx_, vals):
+    """input angles are tied to the model only through their (sin, cos) pair: rebuild the
+    angle value with atan2 so that the replay sees the counterexample the solver found"""
+    reg = ctx_.memo.get("trig", {})
+    for ent in reg.values():
+        base = ent["base"]
+        if not (z3.is_const(base) and base.decl().name() in vals):
+            continue
+        pairs = ent["pairs"]
+        if not pairs:
+            continue
+        q = min(pairs)
+        sv, cv = _mv_float(model, pairs[q][0]), _mv_float(model, pairs[q][1])
+        if sv is None or cv is None:
+            continue
+        vals[base.decl().name()] = math.atan2(sv, cv) / float(q)
+    return vals
 
 
 def _model_values(model, inputs):
@@ -519,25 +561,15 @@ def run_contract(contract, tier="quick", findings=None, want_sample=False):
             facts = c.pc[:npc] + c.axioms
             a = agg.setdefault(name, {"clause": name, "paths": 0, "discharged": 0, "backend": set(), "solver_s": 0.0, "status": "discharged"})
             a["paths"] += 1
-            solver, r, dt = _solve_z3(facts, goal, tmo)
+            solver, r, dt, bes = _solve_z3(facts, goal, tmo)
             a["solver_s"] += dt
-            backend = "z3"
-            if r == "unknown":
-                s2, r2, dt2 = _solve_z3_alt(facts, goal, tmo)
-                a["solver_s"] += dt2
-                if r2 in ("sat", "unsat"):
-                    solver, r, backend = s2, r2, "z3-nlsat"
-            if r == "unknown":
-                r3, dt3 = _solve_cvc5(solver.to_smt2(), tmo)
-                a["solver_s"] += dt3
-                if r3 == "unsat":
-                    r, backend = "unsat", "cvc5"
+            backend = "+".join(sorted(bes))
             if want_sample and res["sample"] is None and r == "unsat":
                 smt = solver.to_smt2()
                 res["sample"] = {"obligation": contract.id + "/" + name, "path": pi, "result": "unsat", "backend": backend, "smt2": smt if len(smt) < 6000 else smt[:6000] + "\n; ... truncated"}
             if r == "unsat":
                 a["discharged"] += 1
-                a["backend"].add(backend)
+                a["backend"] |= bes
                 continue
             if r == "unknown":
                 a["status"] = "undecided" if a["status"] == "discharged" else a["status"]
@@ -554,7 +586,7 @@ def run_contract(contract, tier="quick", findings=None, want_sample=False):
                 model = None
             k = 0
             while model is not None and k < 6:
-                vals = _model_values(model, c.inputs)
+                vals = _angles_from_trig(model, c, _model_values(model, c.inputs))
                 rr = replay_concrete(contract, vals, findings)
                 tried.append({"inputs": vals, "replay": rr})
                 if rr["status"] in ("fail", "exception") and (name in rr["failed"] or rr["failed"]):
